@@ -91,7 +91,9 @@ func (s *PFCPSession) MarkSessionQer(qers []qer) {
 			return
 		}
 
-		copy(sessQerIDList, sList)
+		// Keep exactly the common ones: copying them over the front of the list left the
+		// tail in place, and a QER that not every PDR references could stay in the search list.
+		sessQerIDList = sList
 	}
 
 	// Loop through qer list and mark qer which matches
@@ -106,6 +108,7 @@ func (s *PFCPSession) MarkSessionQer(qers []qer) {
 		sessionIdx int
 		sessionMbr uint64
 		sessQerID  uint32
+		found      bool
 	)
 
 	if len(sessQerIDList) > 3 {
@@ -123,8 +126,16 @@ func (s *PFCPSession) MarkSessionQer(qers []qer) {
 				sessionIdx = idx
 				sessQerID = qer.qerID
 				sessionMbr = qer.ulMbr
+				found = true
 			}
 		}
+	}
+
+	if !found {
+		// No common QER qualifies (e.g. the only common one is a GBR QER). Marking
+		// qers[0] all the same made a QER that only some PDRs reference the session QER.
+		logger.PfcpLog.Infoln("no session QER among the QERs common to all PDRs")
+		return
 	}
 
 	logger.PfcpLog.Infoln("session QER found. QER ID:", sessQerID)
